@@ -73,3 +73,15 @@ Properties/C07.vos Properties/C07.vok Properties/C07.required_vos: Properties/C0
 Properties/C08.vo Properties/C08.glob Properties/C08.v.beautified Properties/C08.required_vo: Properties/C08.v Base.vo Prim.vo
 Properties/C08.vio: Properties/C08.v Base.vio Prim.vio
 Properties/C08.vos Properties/C08.vok Properties/C08.required_vos: Properties/C08.v Base.vos Prim.vos
+Model/Endian.vo Model/Endian.glob Model/Endian.v.beautified Model/Endian.required_vo: Model/Endian.v Base.vo Prim.vo Model/Core.vo Model/Shift.vo Model/Bits.vo
+Model/Endian.vio: Model/Endian.v Base.vio Prim.vio Model/Core.vio Model/Shift.vio Model/Bits.vio
+Model/Endian.vos Model/Endian.vok Model/Endian.required_vos: Model/Endian.v Base.vos Prim.vos Model/Core.vos Model/Shift.vos Model/Bits.vos
+Run/RunC15.vo Run/RunC15.glob Run/RunC15.v.beautified Run/RunC15.required_vo: Run/RunC15.v Base.vo Prim.vo Model/Core.vo Model/Shift.vo Model/Bits.vo Model/Endian.vo Run/RunBase.vo
+Run/RunC15.vio: Run/RunC15.v Base.vio Prim.vio Model/Core.vio Model/Shift.vio Model/Bits.vio Model/Endian.vio Run/RunBase.vio
+Run/RunC15.vos Run/RunC15.vok Run/RunC15.required_vos: Run/RunC15.v Base.vos Prim.vos Model/Core.vos Model/Shift.vos Model/Bits.vos Model/Endian.vos Run/RunBase.vos
+Proofs/Endian.vo Proofs/Endian.glob Proofs/Endian.v.beautified Proofs/Endian.required_vo: Proofs/Endian.v Base.vo Prim.vo Model/Core.vo Model/Shift.vo Model/Bits.vo Model/Endian.vo
+Proofs/Endian.vio: Proofs/Endian.v Base.vio Prim.vio Model/Core.vio Model/Shift.vio Model/Bits.vio Model/Endian.vio
+Proofs/Endian.vos Proofs/Endian.vok Proofs/Endian.required_vos: Proofs/Endian.v Base.vos Prim.vos Model/Core.vos Model/Shift.vos Model/Bits.vos Model/Endian.vos
+Properties/C15.vo Properties/C15.glob Properties/C15.v.beautified Properties/C15.required_vo: Properties/C15.v Base.vo Prim.vo
+Properties/C15.vio: Properties/C15.v Base.vio Prim.vio
+Properties/C15.vos Properties/C15.vok Properties/C15.required_vos: Properties/C15.v Base.vos Prim.vos
